@@ -24,7 +24,7 @@ def cond_specs(rep, rng, n, events, recipes):
             t = c17.cross_cond(rng, doc)
             if rng.random() < 0.3:
                 lit = rng.choice([{"path": ["a", 0]}, {"path.length": ["x"], "b": 1}, {"a": {"path": [1]}},
-                                  {"b": 1, "path": ["a"]}, {"mode": "x", "path.first": ["a"], "z": None}])
+                                  {"b": 1, "path": ["a"]}, {"mode": "x", "path.first": ["a"], "z": None}] + gen.PATHLIKE_EXTRA)
                 t = ("leaf", {"datum": "value", "pre": "none", "fn": rng.choice(["equal_to", "in_", "not_equal_to"]),
                               "actuals": [lit], "akw": {}})
         try:
